@@ -55,7 +55,7 @@ def rel(a, b):
     return abs(a - b) / max(abs(a), abs(b), 1e-300)
 
 
-def check_stats(case, result, rec, log, cap):
+def check_stats(case, result, rec, log, cap, scheme=None):
     bad = []
     data = c02.case_data(case)
     pv = O.parameter_values(case, {p.label: float(p.value) for p in result.optimized_parameters.all()})
@@ -147,6 +147,22 @@ def check_stats(case, result, rec, log, cap):
             bad.append(("number_of_residuals-reevaluated", f"{result.number_of_residuals} != size of the re-evaluated objective {pen0.size}"))
     except (Exception, CaseTimeout) as e:  # noqa
         rec.skip(f"re-evaluation failed: {type(e).__name__}")
+    # ... and by a fresh optimiser on the data objects the caller handed in (what recreate / verify / a second fit see)
+    if scheme is not None:
+        del log[:]
+        try:
+            s3 = Scheme(model=scheme.model, parameters=result.optimized_parameters.copy(), data=scheme.data,
+                        clp_link_tolerance=scheme.clp_link_tolerance, clp_link_method=scheme.clp_link_method,
+                        maximum_number_function_evaluations=1, add_svd=False, optimization_method=scheme.optimization_method)
+            with time_limit(30):
+                optimize(s3, verbose=False, raise_exception=True)
+            pen1 = log[0]["penalty"]
+            c1 = 0.5 * float(pen1 @ pen1)
+            rec.count("reevaluations_on_callers_data")
+            if rel(c1, float(result.cost)) > 1e-9:
+                bad.append(("cost-reevaluated-on-callers-data", f"cost {float(result.cost)!r} != 0.5|objective(x_opt)|^2 = {c1!r} re-evaluated on the scheme's own data objects"))
+        except (Exception, CaseTimeout) as e:  # noqa
+            rec.skip(f"re-evaluation on the caller's data failed: {type(e).__name__}")
     # derived statistics
     nfree = result.number_of_free_parameters
     if not (nfree == len(result.free_parameter_labels) == np.shape(result.jacobian)[1]):
@@ -217,7 +233,7 @@ def plan(tier, seed):
 
 
 def prepare_case(rng):
-    case = c02.fix_groups(S.gen_case(rng))
+    case = c02.fix_groups(S.gen_case(rng, layouts=("mg", "gm", "mg_f", "gm_f")))
     method = METHODS[int(rng.integers(3))]
     case["method"] = method
     if method == "Levenberg-Marquardt":
@@ -253,7 +269,7 @@ def run_case(jc, rec, log, cap):
         rec.skip("unsuccessful result")
         return None
     rec.count("results_checked")
-    bad = check_stats(jc, result, rec, log, cap)
+    bad = check_stats(jc, result, rec, log, cap, scheme=scheme)
     if bad is None:
         return None
     seen = set()
